@@ -221,12 +221,15 @@ func main() {
 					bgmain.Used <- bondgo.UsageNotify{bondgo.TR_PROC, procid, bondgo.C_ROMSIZE, bondgo.S_NIL, linesn}
 				}
 
+				bondgo.VerifPoint("main-exit-monitor")
 				bgmain.Used <- bondgo.UsageNotify{bondgo.TR_EXIT, 0, 0, bondgo.S_NIL, bondgo.I_NIL}
 				<-usagedone
 
 				gent, _ := bondgo.Type_from_string(bgmain.Basic_type)
+				bondgo.VerifPoint("main-exit-assigner")
 				bgmain.Reqs <- bondgo.VarReq{bondgo.REQ_EXIT, 0, bondgo.VarCell{gent, 0, 0, 0, 0, 0, 0, 0}}
 				<-assignerdone
+				bondgo.VerifPoint("main-done")
 			}
 
 			fmt.Print(bgmain.Dump_log())
